@@ -356,7 +356,8 @@ fn soup_string(rng: &mut StdRng) -> String {
         "'", "\"", "`", "$", "$(", "$((", "${", "}", ")", "))", "(", "{", "\\", "\n", " ", "\t", ";", ";;", "&", "&&", "|",
         "||", "<", ">", "<<", "<<-", ">>", "<&", ">|", "<>", "<<<", "#", "~", "=", ":", "-", "+", "?", "%", "!", "*", "a",
         "x", "1", "2", "if", "then", "else", "elif", "fi", "for", "in", "do", "done", "while", "until", "case", "esac",
-        "function", "[[", "]]", "$'", "\\c", "\\x", "\\u", "\\0", "EOF", "\u{a0}", "\u{3000}", "\r", "\u{0}", "é", "𝄞",
+        "function", "[[", "]]", "$'", "\\c", "\\x", "\\u", "\\0", "EOF", "<(", ">(", "2>(", "3<(", "2147483647>",
+        "2147483648>", "4294967294>", "4294967295<", "4294967296>>", "1234567890123456789012345678901234567890>", "\u{a0}", "\u{3000}", "\r", "\u{0}", "é", "𝄞",
     ];
     let n = rng.gen_range(0..40);
     let mut s = String::new();
